@@ -163,6 +163,8 @@ package keeper
 // *DenomUnit pointers), and every registered denomination has bank metadata - a cross-module fact no contract
 // here establishes. See /verif/DESIGN.md section 10, #13.
 // verif:func (Keeper).RegisterCoin
+//@ nopanic dryrun
+//@ ensures [pair-returned] result1 == nil ==> result != nil
 //@ modifies world(ctx)
 //@ ensures [reg-pair]     result1 == nil ==> kvget(aggregate(ctx), pairKey(result.GetID())) == pbmarshal_TokenPair(*result)
 //@ ensures [reg-erc20]    result1 == nil ==> kvget(aggregate(ctx), erc20Key(result.GetERC20Contract())) == result.GetID()
@@ -172,6 +174,8 @@ package keeper
 //@ ensures [reject-clean-registry] result1 != nil ==> aggregate(ctx) == old(aggregate(ctx))
 
 // verif:func (Keeper).AddCoin
+//@ nopanic dryrun
+//@ ensures [pair-returned] result1 == nil ==> result != nil
 //@ requires [registry-inv] idsConsistent(aggregate(ctx))
 //@ modifies world(ctx)
 //@ let pold = pbunmarshal_TokenPair(kvget(old(aggregate(ctx)), pairKey(kvget(old(aggregate(ctx)), erc20Key(common.HexToAddress(contractAddr))))))
@@ -181,6 +185,8 @@ package keeper
 //@ ensures [reject-clean-registry] result1 != nil ==> aggregate(ctx) == old(aggregate(ctx))
 
 // verif:func (Keeper).RegisterERC20
+//@ nopanic dryrun
+//@ ensures [pair-returned] result1 == nil ==> result != nil
 //@ modifies world(ctx)
 //@ ensures [contract-unused] result1 == nil ==> !kvhas(old(aggregate(ctx)), erc20Key(contract))
 //@ ensures [denom-unused]    result1 == nil ==> !kvhas(old(aggregate(ctx)), denomKey(result.Denoms[0]))
@@ -194,13 +200,19 @@ package keeper
 // writer because pairs are only ever stored by SetTokenPair under pair.GetID()).
 // verif:pred idsConsistent(m) := forall id Bytes :: kvhas(m, pairKey(id)) ==> pbunmarshal_TokenPair(kvget(m, pairKey(id))).GetID() == id
 // verif:func (Keeper).ToggleRelay
+//@ nopanic dryrun
 //@ requires [registry-inv] idsConsistent(aggregate(ctx))
 //@ modifies aggregate(ctx)
 //@ ensures [only-the-pair-value] result1 == nil ==> aggregate(ctx) == kvset(old(aggregate(ctx)), pairKey(result.GetID()), pbmarshal_TokenPair(result)) && kvhas(old(aggregate(ctx)), pairKey(result.GetID()))
 //@ ensures [same-tokens]   result1 == nil ==> result.ERC20Address == pbunmarshal_TokenPair(kvget(old(aggregate(ctx)), pairKey(result.GetID()))).ERC20Address && result.Denoms == pbunmarshal_TokenPair(kvget(old(aggregate(ctx)), pairKey(result.GetID()))).Denoms
 //@ ensures [reject-clean]  result1 != nil ==> aggregate(ctx) == old(aggregate(ctx))
 
+// every stored pair lists at least one denomination (created with one by RegisterCoin / RegisterERC20 [one-denom],
+// only ever extended by AddCoin): module invariant, assumed here
+// verif:pred pairsHaveDenoms(m) := forall id Bytes :: kvhas(m, pairKey(id)) ==> len(pbunmarshal_TokenPair(kvget(m, pairKey(id))).Denoms) >= 1
 // verif:func (Keeper).UpdateTokenPairERC20
+//@ requires [registry-inv2] pairsHaveDenoms(aggregate(ctx))
+//@ nopanic dryrun
 //@ requires [registry-inv] idsConsistent(aggregate(ctx))
 //@ modifies world(ctx)
 //@ let oldid = kvget(old(aggregate(ctx)), erc20Key(erc20Addr))
@@ -242,6 +254,7 @@ package keeper
 //@ callsite Pack [this-method-these-args] name == method && dollar_args == args
 //@ callsite CallEVMWithData [this-sender-this-contract] dollar_from == from && *dollar_contract == contract && data == callres("Pack", 0) && callsok("Pack") && dollar_ctx == ctx
 //@ ensures [all-or-nothing] err != nil ==> unchanged(ctx)
+//@ ensures [resp] err == nil ==> result != nil
 //@ ensures [called] err == nil ==> ncalls("CallEVMWithData") == 1 && callsok("CallEVMWithData") && result == callres("CallEVMWithData", 0)
 
 // coin -> token, module-owned contract: escrow exactly the coin, mint exactly the amount to the receiver, and the
